@@ -148,10 +148,15 @@ def frontend_history(part, depth):
         for (n, D, seed) in ((4, 2, 1), (4, 2, 5), (2, 3, 1)):
             alphabet.append((method, n, D, seed))
         alphabet.append((method, 3, None, 7))  # single point: d1 = dimension
+    # refused requests are letters too (a method name in the wrong case, an unknown one, a negative count): they raise, and what is asked
+    # AFTER them is answered as if they had never been made
+    refused = [("KGF", 4, 3, 1), ("Sobol", 4, 3, 1), ("Kgf", 3, None, 5), ("nope", 4, 2, 1), ("sobol", -3, 2, 1)]
+    n_valid = len(alphabet)
+    alphabet += refused
     batch = {"sobol": S.quasirandom_sobol_batch, "kgf": S.quasirandom_kgf_batch}
     single = {"sobol": S.quasirandom_sobol, "kgf": S.quasirandom_kgf}
     want = {}
-    for (method, n, D, seed) in alphabet:
+    for (method, n, D, seed) in alphabet[:n_valid]:
         want[(method, n, D, seed)] = batch[method](seed, seed + n - 1, D) if D is not None else single[method](seed, n)
     seen_states = set()
     for L in range(1, depth + 1):
@@ -161,13 +166,23 @@ def frontend_history(part, depth):
             import importlib
 
             S = importlib.reload(S)
+            if hist[-1] >= n_valid:
+                continue        # a history ending in a refused request observes nothing
             for step, k in enumerate(hist):
                 method, n, D, seed = alphabet[k]
+                if k >= n_valid:
+                    try:
+                        S.quasirandom(n, D, method=method, seed=seed) if D is not None else S.quasirandom(n, method=method, seed=seed)
+                        part.count("refused_request_answered")
+                    except Exception:
+                        pass
+                    part.tr()
+                    continue
                 got = S.quasirandom(n, D, method=method, seed=seed) if D is not None else S.quasirandom(n, method=method, seed=seed)
                 part.tr()
                 w = want[alphabet[k]]
-                if got.shape != w.shape or not (np.abs(got - w).max() <= 0.0 if method == "sobol" else 1e-12):
-                    part.fail("front-end-history:%s-after-%s" % (method, alphabet[hist[step - 1]][0] if step else "start"),
+                if got.shape != w.shape or not (np.abs(got - w).max() <= (0.0 if method == "sobol" else 1e-12)):
+                    part.fail("front-end-history:%s-after-%s" % (method, (alphabet[hist[step - 1]][0] if hist[step - 1] < n_valid else "refused") if step else "start"),
                               "quasirandom%s returns other points than the %s generator after the call history %s"
                               % ((n, D, method, seed), method, [alphabet[j] for j in hist[:step]]), {"kind": "history", "hist": list(hist)})
                     break
